@@ -861,3 +861,288 @@ mod tests {
         }
     }
 }
+
+/// Verification hooks: drivers around the crate-private header-ex handlers and codec,
+/// with plain-data interfaces, for the conformance harness (`lumina_node::verif::hx`).
+#[cfg(eigerco_lumina_verif)]
+pub(crate) mod verif_hooks {
+    use std::collections::HashMap;
+
+    use tokio::sync::oneshot;
+
+    use super::client::RequestSender;
+    use super::server::ResponseSender;
+    use super::utils::HeaderRequestExt;
+    use super::*;
+    use crate::events::EventChannel;
+
+    pub use super::client::verif_hooks::ClientSnapshot;
+
+    pub const REQUEST_SIZE_LIMIT_: usize = REQUEST_SIZE_LIMIT;
+    pub const RESPONSE_SIZE_LIMIT_: usize = RESPONSE_SIZE_LIMIT;
+    pub const MAX_TRIES_: usize = super::client::verif_hooks::MAX_TRIES_;
+    pub const MAX_PEERS_: usize = super::client::verif_hooks::MAX_PEERS_;
+
+    pub fn request_is_valid(request: &HeaderRequest) -> bool {
+        request.is_valid()
+    }
+
+    pub fn request_is_head(request: &HeaderRequest) -> bool {
+        request.is_head_request()
+    }
+
+    /// `client::decode_and_verify_responses`.
+    pub async fn decode_and_verify_responses(
+        request: &HeaderRequest,
+        responses: &[HeaderResponse],
+    ) -> Result<Vec<ExtendedHeader>, HeaderExError> {
+        super::client::verif_hooks::decode_and_verify(request, responses).await
+    }
+
+    // ------------------------------------------------------------------ codec
+
+    fn proto() -> StreamProtocol {
+        StreamProtocol::new("/verif/header-ex")
+    }
+
+    pub async fn codec_read_request<T>(io: &mut T) -> io::Result<HeaderRequest>
+    where
+        T: AsyncRead + Unpin + Send,
+    {
+        HeaderCodec.read_request(&proto(), io).await
+    }
+
+    pub async fn codec_read_response<T>(io: &mut T) -> io::Result<Vec<HeaderResponse>>
+    where
+        T: AsyncRead + Unpin + Send,
+    {
+        HeaderCodec.read_response(&proto(), io).await
+    }
+
+    pub async fn codec_write_request<T>(io: &mut T, request: HeaderRequest) -> io::Result<()>
+    where
+        T: AsyncWrite + Unpin + Send,
+    {
+        HeaderCodec.write_request(&proto(), io, request).await
+    }
+
+    pub async fn codec_write_response<T>(
+        io: &mut T,
+        responses: Vec<HeaderResponse>,
+    ) -> io::Result<()>
+    where
+        T: AsyncWrite + Unpin + Send,
+    {
+        HeaderCodec.write_response(&proto(), io, responses).await
+    }
+
+    // ------------------------------------------------------------------ server
+
+    /// `ResponseSender` that records what the server handler sends; a channel is a number.
+    #[derive(Debug, Default)]
+    pub struct RecordingResponseSender {
+        sent: Vec<(u64, Vec<HeaderResponse>)>,
+    }
+
+    impl ResponseSender for RecordingResponseSender {
+        type Channel = u64;
+
+        fn send_response(&mut self, channel: u64, response: ResponseType) {
+            self.sent.push((channel, response));
+        }
+    }
+
+    /// The real `HeaderExServerHandler` over a store, with a recording sender.
+    pub struct ServerDriver<S>
+    where
+        S: Store + 'static,
+    {
+        handler: HeaderExServerHandler<S, RecordingResponseSender>,
+        sender: RecordingResponseSender,
+    }
+
+    impl<S> ServerDriver<S>
+    where
+        S: Store + 'static,
+    {
+        pub fn new(store: Arc<S>) -> Self {
+            ServerDriver {
+                handler: HeaderExServerHandler::new(store),
+                sender: RecordingResponseSender::default(),
+            }
+        }
+
+        pub fn on_request(&mut self, channel: u64, request: HeaderRequest) {
+            self.handler.on_request_received(
+                PeerId::random(),
+                channel,
+                request,
+                &mut self.sender,
+                channel,
+            );
+        }
+
+        pub fn poll(&mut self, cx: &mut Context<'_>) -> Poll<()> {
+            self.handler.poll(cx, &mut self.sender)
+        }
+
+        pub fn stop(&mut self) {
+            self.handler.on_stop();
+        }
+
+        /// Responses sent so far, in order: (channel, responses).
+        pub fn take_sent(&mut self) -> Vec<(u64, Vec<HeaderResponse>)> {
+            std::mem::take(&mut self.sender.sent)
+        }
+    }
+
+    // ------------------------------------------------------------------ client
+
+    /// `RequestSender` that records what the client handler sends; request ids are numbers.
+    #[derive(Debug, Default)]
+    pub struct RecordingRequestSender {
+        next_id: u64,
+        sent: Vec<(u64, PeerId, HeaderRequest)>,
+    }
+
+    impl RequestSender for RecordingRequestSender {
+        type RequestId = u64;
+
+        fn send_request(&mut self, peer: &PeerId, request: HeaderRequest) -> u64 {
+            let id = self.next_id;
+            self.next_id += 1;
+            self.sent.push((id, *peer, request));
+            id
+        }
+    }
+
+    #[derive(Debug, Clone, Copy, PartialEq, Eq)]
+    pub enum ClientEvent {
+        SchedulePendingRequests,
+        NeedTrustedPeers,
+        NeedArchivalPeers,
+    }
+
+    #[derive(Debug, Clone, Copy, PartialEq, Eq)]
+    pub enum Failure {
+        DialFailure,
+        Timeout,
+        ConnectionClosed,
+        UnsupportedProtocols,
+        Io,
+    }
+
+    /// Answer channel of a request given to the client handler.
+    pub type AnswerReceiver = oneshot::Receiver<Result<Vec<ExtendedHeader>, P2pError>>;
+
+    /// The real `HeaderExClientHandler` with a recording sender and a `PeerTracker`.
+    pub struct ClientDriver {
+        handler: HeaderExClientHandler<RecordingRequestSender>,
+        sender: RecordingRequestSender,
+        tracker: PeerTracker,
+        _events: EventChannel,
+        conns: HashMap<PeerId, ConnectionId>,
+        next_conn: usize,
+    }
+
+    impl Default for ClientDriver {
+        fn default() -> Self {
+            Self::new()
+        }
+    }
+
+    impl ClientDriver {
+        pub fn new() -> Self {
+            let events = EventChannel::new();
+            let tracker = PeerTracker::new(events.publisher());
+            ClientDriver {
+                handler: HeaderExClientHandler::new(),
+                sender: RecordingRequestSender::default(),
+                tracker,
+                _events: events,
+                conns: HashMap::new(),
+                next_conn: 0,
+            }
+        }
+
+        pub fn set_trusted(&mut self, peer: &PeerId, trusted: bool) {
+            self.tracker.set_trusted(peer, trusted);
+        }
+
+        pub fn connect(&mut self, peer: &PeerId) {
+            if self.conns.contains_key(peer) {
+                return;
+            }
+            let id = ConnectionId::new_unchecked(self.next_conn);
+            self.next_conn += 1;
+            self.conns.insert(*peer, id);
+            self.tracker.add_connection(peer, id);
+        }
+
+        pub fn disconnect(&mut self, peer: &PeerId) {
+            if let Some(id) = self.conns.remove(peer) {
+                self.tracker.remove_connection(peer, id);
+            }
+        }
+
+        pub fn mark_archival(&mut self, peer: &PeerId) {
+            self.tracker.mark_as_archival(peer);
+        }
+
+        /// (peer, connected, trusted, archival) of every tracked peer.
+        pub fn peers(&self) -> Vec<(PeerId, bool, bool, bool)> {
+            self.tracker
+                .peers()
+                .map(|p| (*p.id(), p.is_connected(), p.is_trusted(), p.is_archival()))
+                .collect()
+        }
+
+        pub fn send_request(&mut self, request: HeaderRequest) -> AnswerReceiver {
+            let (tx, rx) = oneshot::channel();
+            self.handler.on_send_request(request, tx);
+            rx
+        }
+
+        pub fn schedule_pending_requests(&mut self) {
+            self.handler
+                .schedule_pending_requests(&mut self.sender, &self.tracker);
+        }
+
+        /// Requests handed to the sender since the last call: (request id, peer, request).
+        pub fn take_sent(&mut self) -> Vec<(u64, PeerId, HeaderRequest)> {
+            std::mem::take(&mut self.sender.sent)
+        }
+
+        pub fn on_response(&mut self, peer: PeerId, request_id: u64, responses: Vec<HeaderResponse>) {
+            self.handler
+                .on_response_received(peer, request_id, responses);
+        }
+
+        pub fn on_failure(&mut self, peer: PeerId, request_id: u64, failure: Failure) {
+            let error = match failure {
+                Failure::DialFailure => OutboundFailure::DialFailure,
+                Failure::Timeout => OutboundFailure::Timeout,
+                Failure::ConnectionClosed => OutboundFailure::ConnectionClosed,
+                Failure::UnsupportedProtocols => OutboundFailure::UnsupportedProtocols,
+                Failure::Io => OutboundFailure::Io(io::Error::other("verif")),
+            };
+            self.handler.on_failure(peer, request_id, error);
+        }
+
+        pub fn stop(&mut self) {
+            self.handler.on_stop();
+        }
+
+        pub fn poll(&mut self, cx: &mut Context<'_>) -> Poll<ClientEvent> {
+            self.handler.poll(cx).map(|ev| match ev {
+                Event::SchedulePendingRequests => ClientEvent::SchedulePendingRequests,
+                Event::NeedTrustedPeers => ClientEvent::NeedTrustedPeers,
+                Event::NeedArchivalPeers => ClientEvent::NeedArchivalPeers,
+            })
+        }
+
+        pub fn snapshot(&self) -> ClientSnapshot {
+            super::client::verif_hooks::snapshot(&self.handler, |id| *id)
+        }
+    }
+}
